@@ -10,7 +10,7 @@ Ltac asr_neg_tac a b Hg :=
   try discriminate; rewrite ?Hg;
   match goal with |- context [if ?c then _ else _] => destruct c; discriminate end.
 
-Lemma h_asr_no_ub_gnu m t a b : m_gnushl m = true -> ity_ok t -> in_ity t a -> in_ity (to_signed t) b ->
+Lemma h_asr_no_ub_gnu m t a b : m_gnushl m = true -> ity_ok t -> in_ity t a -> in_ity I64 b ->
   h_asr m t a b <> OUB.
 Proof.
   intros Hg Ht. revert a b. pattern t. apply ity_cases; [| | | | | | | |exact Ht];
@@ -22,7 +22,7 @@ Proof.
 Qed.
 
 Definition asr_no_ub_fwrapv_full : Prop :=
-  forall t a b, ity_ok t -> in_ity t a -> in_ity (to_signed t) b -> h_asr FWRAPV t a b <> OUB.
+  forall t a b, ity_ok t -> in_ity t a -> in_ity I64 b -> h_asr FWRAPV t a b <> OUB.
 Lemma asr_no_ub_fwrapv_refuted : ~ asr_no_ub_fwrapv_full.
 Proof.
   intros H. apply (H I64 (-1) (-1)); [cbn; tauto| | |]; vm_compute; try reflexivity; split; discriminate.
@@ -69,7 +69,7 @@ Proof.
   destruct (checked && _); discriminate.
 Qed.
 
-(* ---- layout: primitive tables and the refutation witness ---- *)
+(* ---- layout: primitive tables; the former refutation witnesses now hold ---- *)
 Lemma prims_agree : map (fun p => (fst p, Z.min (snd p) maxalign)) nelua_prims = c_prims /\
                     (ptrsize, Z.min ptrsize maxalign) = c_pointer.
 Proof. vm_compute. split; reflexivity. Qed.
@@ -77,28 +77,12 @@ Proof. vm_compute. split; reflexivity. Qed.
 (* index of int64 and of byte (uint8) in the primitive table *)
 Definition k_int64 : nat := 4.
 Definition k_uint8 : nat := 7.
-(* still false after 61ca8bb: a zero-size UNION forgets the alignment of its members *)
-Definition t_zero_aligned : ty := TUni [TArr (TPrim k_int64) 0].
-Definition t_witness : ty := TRec [t_zero_aligned; TPrim k_uint8] false None.
-(* ... and so does an `aligned` record without fields *)
-Definition t_witness2 : ty := TRec [TRec [] false (Some 16); TPrim k_uint8] false None.
-(* the repaired case: a zero-size record keeps the alignment of its fields *)
+(* repaired in 61ca8bb / bac28d6 / 3c0ba5f: zero-size record, zero-size union, aligned record without fields *)
 Definition t_repaired : ty := TRec [TRec [TArr (TPrim k_int64) 0] false None; TPrim k_uint8] false None.
-
-(* the analyzer accepts every type tree over the primitive table with array lengths >= 0 *)
-Fixpoint accepted (t : ty) : bool :=
-  match t with
-  | TPrim k => (k <? length nelua_prims)%nat
-  | TPtr => true
-  | TArr t n => accepted t && (0 <=? n)
-  | TRec fs _ aligned => forallb accepted fs && match aligned with Some A => is_pow2 A | None => true end
-  | TUni fs => forallb accepted fs
-  end.
-
-Definition layout_agrees_full : Prop := forall t, accepted t = true -> static_assert_holds t = true.
-Lemma layout_agrees_refuted : ~ layout_agrees_full.
-Proof. intros H. specialize (H t_witness eq_refl). vm_compute in H. discriminate. Qed.
-Lemma layout_agrees_refuted2 : accepted t_witness2 = true /\ static_assert_holds t_witness2 = false.
-Proof. vm_compute. split; reflexivity. Qed.
-Example repaired_case : static_assert_holds t_repaired = true /\ nl t_repaired = (8, 8).
-Proof. vm_compute. split; reflexivity. Qed.
+Definition t_repaired_union : ty := TRec [TUni [TArr (TPrim k_int64) 0]; TPrim k_uint8] false None.
+Definition t_repaired_aligned : ty := TRec [TRec [] false (Some 16); TPrim k_uint8] false None.
+Example repaired_cases :
+  static_assert_holds t_repaired = true /\ nl t_repaired = (8, 8) /\
+  static_assert_holds t_repaired_union = true /\ nl t_repaired_union = (8, 8) /\
+  static_assert_holds t_repaired_aligned = true /\ nl t_repaired_aligned = (16, 16).
+Proof. vm_compute. repeat split; reflexivity. Qed.
